@@ -120,3 +120,58 @@ def accsOf : TProg → Outer → List Acc
   | .write k v cont, o => .wr k v :: accsOf cont (o.write k v)
 
 end FxVerif.Model.C08Dep
+
+namespace FxVerif.Model.C08Dep
+open FxVerif.Model.C08Cache
+open FxVerif.Gen.C08e
+
+/-! ### whole transactions through the interpreted source -/
+
+/-- a token program executed by the running EVM: every SLOAD / SSTORE goes through the regenerated `GetState` / `SetState` -/
+def iRunProg : TProg → ObjSt → Option (Bool × ObjSt)
+  | .done ok, s => some (ok, s)
+  | .read k cont, s =>
+    match iGetState k s with
+    | some (v, s1) => iRunProg (cont v) s1
+    | none => none
+  | .write k v cont, s =>
+    match iSetState k v s with
+    | some s1 => iRunProg cont s1
+    | none => none
+
+/-- a keeper-level call: `ApplyMessageWithConfig` builds a NEW StateDB over the store (regenerated fact), runs the program
+on it and — when asked to commit and the call succeeded — runs the regenerated `Commit` loop -/
+def iNested (p : TProg) (st : Store) : Option (Bool × Store) :=
+  if applyMessage_freshStateDB && applyMessage_commitsIffAsked then
+    match iRunProg p ⟨{ store := st }, []⟩ with
+    | some (true, s1) => (iCommit s1).map fun s2 => (true, s2.o.store)
+    | some (false, _) => some (false, st)
+    | none => none
+  else none
+
+/-- `runTx` with every storage access and every nested call interpreted; `none` = the interpretation is stuck,
+`some none` = the transaction reverted -/
+def iRunTx : List MStep → ObjSt → Nat → Option (Option (ObjSt × Nat))
+  | [], s, esc => some (some (s, esc))
+  | .evm p pay :: rest, s, esc =>
+    match iRunProg p s with
+    | some (true, s1) => if esc < pay then some none else iRunTx rest s1 (esc - pay)
+    | some (false, _) => some none
+    | none => none
+  | .nested p pay gain :: rest, s, esc =>
+    match iNested p s.o.store with
+    | some (true, st) => if esc < pay then some none else iRunTx rest { s with o := { s.o with store := st } } (esc - pay + gain)
+    | some (false, _) => some none
+    | none => none
+
+/-- the transaction as the source executes it: fresh transaction-level StateDB, the steps, `Commit` (native store first —
+`commit_nativeStoreFirst` — then the dirty slots over it) -/
+def iTxResult (steps : List MStep) (st : Store) (esc : Nat) : Option (Bool × Store × Nat) :=
+  if commit_nativeStoreFirst then
+    match iRunTx steps ⟨{ store := st }, []⟩ esc with
+    | some (some (s, esc')) => (iCommit s).map fun s2 => (true, s2.o.store, esc')
+    | some none => some (false, st, esc)
+    | none => none
+  else none
+
+end FxVerif.Model.C08Dep
